@@ -99,7 +99,7 @@ func runProto(rep *report) error {
 	groups := map[string][]drv.Script{}
 	var keys []string
 	for _, s := range scripts {
-		k := s.Cfg.Key()
+		k := s.Cfg.Key() + "|" + s.Grp
 		if _, ok := groups[k]; !ok {
 			keys = append(keys, k)
 		}
@@ -120,7 +120,7 @@ func runProto(rep *report) error {
 		g := groups[k]
 		for len(g) > 0 {
 			n := per
-			if n > len(g) {
+			if n > len(g) || g[0].Grp != "" {
 				n = len(g)
 			}
 			jobs = append(jobs, job{len(jobs), g[:n]})
@@ -154,7 +154,8 @@ func runProto(rep *report) error {
 					tw.Close()
 					continue
 				}
-				for _, s := range j.scripts {
+				for pos, s := range j.scripts {
+					s.Job, s.Pos = j.idx, pos
 					rng := rand.New(rand.NewSource(*fSeed*1000003 + int64(hash(s.ID))))
 					err := inst.RunProto(s, tw, rng)
 					mu.Lock()
